@@ -1404,3 +1404,41 @@ for _op in ("union", "cut", "intersection"):
         _fb.__doc__ = _bool_boundary_density.__doc__
         _cls = BOOL[_op][1]
         scenario("C01", [_cls + (".sample_random_uniform" if _mode == "random" else ".sample_grid"), _cls + ("._sample_random_with_d" if _mode == "random" else "._sample_grid_with_d")], configs=["abstract-operands"])(_fb)
+
+
+@scenario("C18", [PROD + ".bounding_box", PROD + ".set_bounding_box"], configs=["dependent-first-factor"])
+def dependent_product_box_is_assembled_from_the_operand_boxes_of_this_call(S):
+    """ProductDomain whose first factor depends on the second, no partner values given: the box is
+    [box of A for partner points drawn in B at THESE parameters, box of B at THESE parameters] (an approximation the
+    library warns about -- what is under contract is that it is assembled from operand boxes asked in THIS call with
+    THIS call's parameters).  history: a second call with other parameters asks the operands again; after
+    set_bounding_box the user's box is returned"""
+    A = abstract_domain(S, "A", S.new(R2, "x"), {"y": 1, "t": 1})
+    B = abstract_domain(S, "B", S.new(R1, "y"), {"t": 1})
+    dom = S.new(PROD, A.obj, B.obj)
+    for call in ("first", "second"):
+        T = S.tensor(f"tt_{call}", [1, 1])
+        params = S.new(POINTS, T, S.new(R1, "t"))
+        tv = zreal(T.val.at([(), ()]))
+        A.box, B.box = None, None
+        box = S.method(dom, "bounding_box", params).val
+        ok = box.rank == 1 and box.shape[0].concrete() == 6
+        S.ensure(f"{call}:flat-vector-of-2-times-3", ok)
+        S.ensure(f"{call}:both-operand-boxes-asked-in-this-call", A.box is not None and B.box is not None)
+        if not ok or A.box is None or B.box is None:
+            return
+        (bxa, pa), (bxb, pb) = A.box, B.box
+        S.ensure(f"{call}:entries-are-the-operand-boxes-of-this-call", z3.And([zreal(box.at([(j,)])) == bxa[j] for j in range(4)] + [zreal(box.at([(4 + j,)])) == bxb[j] for j in range(2)]))
+        pbt = pb.f["_t"].val
+        S.ensure(f"{call}:second-factor-asked-with-the-parameters-of-this-call", pbt.rank == 2 and pbt.shape[1].is_one and pbt.shape[0].is_one)
+        if pbt.rank == 2 and pbt.shape[0].is_one:
+            S.ensure(f"{call}:second-factor-parameter-value", zreal(pbt.at([(), ()])) == tv)
+        pat = pa.f["_t"].val
+        keys_a = list(pa.f["space"].native.keys())
+        S.ensure(f"{call}:first-factor-asked-with-partner-points-and-the-parameters-of-this-call", keys_a == ["y", "t"] and pat.rank == 2)
+        if keys_a == ["y", "t"] and pat.rank == 2:
+            S.forall(f"{call}:first-factor-rows-carry-the-parameter-of-this-call", pa.f["_t"], lambda q, pat=pat, tv=tv: z3.Implies(zint(q[1][0]) == 1, zreal(pat.at(q)) == tv))
+    ub = [S.real(f"user_box{j}") for j in range(6)]
+    S.method(dom, "set_bounding_box", ub)
+    got = S.method(dom, "bounding_box", S.new(POINTS, S.tensor("tt_third", [1, 1]), S.new(R1, "t")))
+    S.ensure("user-box-is-returned-after-set_bounding_box", got is ub)
